@@ -3,7 +3,7 @@ comparison, shrinking, known findings, evidence."""
 import concurrent.futures, fcntl, hashlib, json, os, re, shutil, subprocess, sys, tempfile, time
 
 V = os.path.dirname(os.path.dirname(os.path.abspath(__file__)))
-REPO = '/repo'
+REPO = os.environ.get('WT_REPO', '/repo')
 GOENV = dict(os.environ, GOFLAGS='-mod=mod', GOPROXY='off', GOSUMDB='off', GOTOOLCHAIN='local',
              CGO_ENABLED='0')
 FORBIDDEN = re.compile(r'\b(Admitted|admit|Axiom|Axioms|Parameter|Parameters|Conjecture|Conjectures|'
@@ -154,10 +154,18 @@ def build_driver(work, log, race=False):
         tmp = V + '/harness/go.sum.tmp%d' % os.getpid()
         shutil.copy(REPO + '/go.sum', tmp)
         os.replace(tmp, V + '/harness/go.sum')
-        cmd = ['go', 'build', '-tags', 'verif', '-o', work + '/wtdriver', './cmd/wtdriver']
+        extra = []
+        if REPO != '/repo':
+            # development aid (bin/try-seeded): build against a scratch worktree named by WT_REPO;
+            # the registered commands never set it and always build against /repo's working tree
+            mod = open(V + '/harness/go.mod').read().replace('=> /repo', '=> ' + REPO)
+            open(work + '/alt.mod', 'w').write(mod)
+            shutil.copy(REPO + '/go.sum', work + '/alt.sum')
+            extra = ['-modfile=' + work + '/alt.mod']
+        cmd = ['go', 'build'] + extra + ['-tags', 'verif', '-o', work + '/wtdriver', './cmd/wtdriver']
         env = GOENV
         if race:
-            cmd = ['go', 'build', '-race', '-tags', 'verif', '-o', work + '/wtdriver', './cmd/wtdriver']
+            cmd = ['go', 'build'] + extra + ['-race', '-tags', 'verif', '-o', work + '/wtdriver', './cmd/wtdriver']
             env = dict(GOENV, CGO_ENABLED='1')
         rc, out, err = sh(cmd, env=env, cwd=V + '/harness', timeout=1200)
     if rc != 0:
